@@ -431,7 +431,9 @@ func (h *harness) lakeCheck(oc *ocase) {
 		default:
 			real = "ok " + strings.Join(a.Out, " ")
 		}
-		if len(oc.Objects) <= 4 {
+		if agg == "sum" && oc.intValsAmbiguous() {
+			c.Stat("lake:sum:tie-skipped(body ambiguous between a signed and an unsigned type)")
+		} else if len(oc.Objects) <= 4 {
 			c.Res.ModelCases++
 			outs := h.modelLakeOutcomes(oc, agg, legs)
 			c.Stat(fmt.Sprintf("lake:model-outcomes:%d", len(outs)))
